@@ -255,7 +255,8 @@ impl<'a, T> ChordsV2<'a, T> {
             // Releases must still reach the active chords. Otherwise a chord whose last
             // participant is released during the cool-down is never released.
             for qd in self.queue.iter() {
-                if let Event::Release(_, j) = qd.event {
+                // Only row 0 is real inputs; a virtual key's index is not a key code.
+                if let Event::Release(0, j) = qd.event {
                     release_key_in_active_chords(&mut self.active_chords, j);
                 }
             }
